@@ -108,7 +108,7 @@ int expect(const Geo& g, const Point64& p, double ad, JoinType jt, EndType et, d
     if (eet == EndType::Round && hypotl(ex, ey) <= w && ex * e.second.x + ey * e.second.y >= 0) return 1;
     if (eet == EndType::Square) {
       ld along = ex * e.second.x + ey * e.second.y, perp = fabsl(ex * e.second.y - ey * e.second.x);
-      if (along >= -tol && along <= w && perp <= w) return 1;
+      if (along >= 0 && along <= w && perp <= w) return 1;   // (claimed only beyond the end line: behind it the path may already have turned)
     }
   }
   if (ad >= 1.0) for (auto& q : g.singles) {   // single points are dropped by design for |delta| < 1
@@ -267,7 +267,7 @@ Case gen() {
       paths.push_back(p);
     }
   }
-  if (G::chance(2)) {
+  if (G::chance(1)) {
     // large: one polyline of 80-250 vertices along a ring (strokes with hundreds of vertices: size-dependent behaviour)
     ad = G::real(8.0, 300.0);
     c.d["delta"] = ad;
